@@ -30,10 +30,14 @@ CONSTANTS
   FullKinds,    \* kinds explored with the full alphabets; the others ("lite") get LiteURL and LiteChain
   LiteChain,
   LongBound,    \* 0, or: one chain of the plain name carrier is followed up to LongBound redirects (redirect limit)
+  HistBound,    \* number of EARLIER fetches of the same process (0 = every fetch in a fresh process); a case is then a
+                \* history of HistBound + 1 fetches, each with its own configuration (allow-list)
+  PoolClasses,  \* {} = every address class, else the classes the resolver answers / literals are drawn from
   Emit
 
-VARIABLES kind, allow, phase, cur, done
-vars == <<kind, allow, phase, cur, done>>
+VARIABLES kind, allow, phase, cur, done,
+          hist   \* the fetches the process has completed before the current one (their emitted form)
+vars == <<kind, allow, phase, cur, done, hist>>
 
 Rev == {"crl", "ocsp"}
 MaxRequests == 10       \* revocationRedirect: len(via) >= 10 stops; the image client has no bound of its own
@@ -68,7 +72,7 @@ Rep == [
 
 Classes == DOMAIN Rep
 A(c) == Rep[c][Variant]
-Pool == { A(c) : c \in Classes }
+Pool == { A(c) : c \in (IF PoolClasses = {} THEN Classes ELSE PoolClasses) }
 AllReps == UNION { { Rep[c][v] : v \in 1..3 } : c \in Classes }
 
 (* ---- host names (ASCII codes) ---- *)
@@ -148,21 +152,22 @@ Enter(k, u, n) ==
   ELSE [h |-> h, p |-> "resolve"]
 
 NoHop == Hop(U("none", "none", "empty", <<>>))
-Init == kind = "none" /\ allow = "unset" /\ phase = "start" /\ cur = NoHop /\ done = <<>>
+Init == kind = "none" /\ allow = "unset" /\ phase = "start" /\ cur = NoHop /\ done = <<>> /\ hist = <<>>
 
 LiteURL(u) == u.scheme \in {"http", "https", "ftp"} /\ u.user \in {"none", "userpass"} /\ u.form \in {"pki", "lit"}
 Start == /\ phase = "start"
          /\ \E k \in Kinds, u \in URLs1 :
               /\ k \in FullKinds \/ LiteURL(u)
+              /\ hist # <<>> => ((k \in Rev) <=> (hist[1].kind \in Rev))   \* one process = one package: revocation or image box
               /\ LET e == Enter(k, u, 1) IN kind' = k /\ cur' = e.h /\ phase' = e.p
-         /\ UNCHANGED <<allow, done>>
+         /\ UNCHANGED <<allow, done, hist>>
 
 \* the allow-list spelling (configuration) is chosen lazily, the first time it can make a difference: before the
 \* resolver answers for a host that some spelling would allow-list
 NeedsAllow == kind \in Rev /\ \E f \in AllowForms : AllowListed(cur.host, AllowList(f))
 PickAllow == /\ phase \in {"resolve", "check"} /\ allow = "unset" /\ NeedsAllow
              /\ \E f \in AllowForms : allow' = f
-             /\ UNCHANGED <<kind, phase, cur, done>>
+             /\ UNCHANGED <<kind, phase, cur, done, hist>>
 
 AnswersFor(h, n) ==
   IF h.form \in Unresolvable THEN {<<>>}
@@ -174,15 +179,15 @@ AnswersFor(h, n) ==
 Resolve == /\ phase = "resolve" /\ (allow # "unset" \/ ~NeedsAllow)
            /\ \E a \in AnswersFor(cur, Len(done) + 1) : cur' = [cur EXCEPT !.answers = a]
            /\ phase' = "check"
-           /\ UNCHANGED <<kind, allow, done>>
+           /\ UNCHANGED <<kind, allow, done, hist>>
 
 Check == /\ phase = "check" /\ (allow # "unset" \/ ~NeedsAllow)
          /\ IF Permit(kind, cur, allow)
             THEN cur' = [cur EXCEPT !.conn = Attempts(kind, cur), !.st = "connected"] /\ phase' = "respond"
             ELSE cur' = [cur EXCEPT !.st = IF cur.answers = <<>> THEN "noresolve" ELSE "blocked"] /\ phase' = "done"
-         /\ UNCHANGED <<kind, allow, done>>
+         /\ UNCHANGED <<kind, allow, done, hist>>
 
-Body == phase = "respond" /\ phase' = "done" /\ UNCHANGED <<kind, allow, cur, done>>
+Body == phase = "respond" /\ phase' = "done" /\ UNCHANGED <<kind, allow, cur, done, hist>>
 
 \* only a few permitted hops answer with a redirect (the carriers); every permitted hop may answer with a body
 IsCarrier(h) ==
@@ -195,7 +200,7 @@ Redirect == /\ phase = "respond" /\ IsCarrier(cur)
             /\ \E u \in URLsR :
                  LET e == Enter(kind, u, Len(done) + 2) IN cur' = e.h /\ phase' = e.p
             /\ done' = Append(done, cur)
-            /\ UNCHANGED <<kind, allow>>
+            /\ UNCHANGED <<kind, allow, hist>>
 
 \* the long chain: img.verif.test (public) redirects to itself again and again
 NameCarrier(h) == h.scheme = "http" /\ h.user = "none" /\ h.form = "other" /\ h.answers = <<A("pub4")>>
@@ -204,10 +209,7 @@ LongRedirect == /\ phase = "respond" /\ kind \in FullKinds
                 /\ NameCarrier(cur) /\ \A i \in 1..Len(done) : NameCarrier(done[i])
                 /\ LET e == Enter(kind, U("http", "none", "other", <<>>), Len(done) + 2) IN cur' = e.h /\ phase' = e.p
                 /\ done' = Append(done, cur)
-                /\ UNCHANGED <<kind, allow>>
-
-Next == Start \/ Resolve \/ PickAllow \/ Check \/ Body \/ Redirect \/ LongRedirect
-Spec == Init /\ [][Next]_vars
+                /\ UNCHANGED <<kind, allow, hist>>
 
 (* ---- the property, stated on the design's connect attempts ---- *)
 AllHops == IF phase = "start" THEN <<>> ELSE Append(done, cur)
@@ -236,7 +238,18 @@ CaseHop(n) == LET h == AllHops[n] IN
   [scheme |-> h.scheme, user |-> h.user, form |-> h.form, addr |-> h.addr, host |-> h.host, answers |-> h.answers,
    st |-> h.st, pred |-> h.conn, may |-> May(n, h),
    classes |-> [i \in 1..Len(h.answers) |-> ClassOf(h.answers[i])]]
+Fetch == [kind |-> kind, allowform |-> allow, allow |-> AllowList(allow), variant |-> Variant,
+          hops |-> [n \in 1..Len(AllHops) |-> CaseHop(n)]]
+\* earlier fetches of the process: the spec's verdict on the current fetch (Safe, May) never looks at them - every
+\* fetch is held to the rules under ITS OWN configuration, whatever the process did before
 Case == [kind |-> kind, allowform |-> allow, allow |-> AllowList(allow), variant |-> Variant,
-         hops |-> [n \in 1..Len(AllHops) |-> CaseHop(n)]]
-EmitCase == (Emit /\ phase = "done") => PrintT(<<"CASE", ToJson(Case)>>)
+         hops |-> [n \in 1..Len(AllHops) |-> CaseHop(n)], prev |-> hist]
+EmitCase == (Emit /\ phase = "done" /\ Len(hist) = HistBound) => PrintT(<<"CASE", ToJson(Case)>>)
+\* the process goes on to its next fetch, possibly under another configuration
+NextFetch == /\ phase = "done" /\ Len(hist) < HistBound
+             /\ hist' = Append(hist, Fetch)
+             /\ kind' = "none" /\ allow' = "unset" /\ phase' = "start" /\ cur' = NoHop /\ done' = <<>>
+
+Next == Start \/ Resolve \/ PickAllow \/ Check \/ Body \/ Redirect \/ LongRedirect \/ NextFetch
+Spec == Init /\ [][Next]_vars
 =============================================================================
